@@ -69,6 +69,18 @@ def _default_path_asn4() -> bool:
     return found[0]
 
 
+def _nexthop_family_guard() -> bool:
+    """Does `UpdateCollection.messages` consult `negotiated.nexthop` (the RFC 8950 families) before it
+    packs an announce, i.e. is a route whose next hop has a family the session cannot carry left out?"""
+    from exabgp.bgp.message.update.collection import UpdateCollection
+
+    tree = ast.parse(textwrap.dedent(inspect.getsource(UpdateCollection.messages)))
+    for node in ast.walk(tree):
+        if isinstance(node, ast.Attribute) and node.attr == 'nexthop' and isinstance(node.value, ast.Name) and node.value.id == 'negotiated':
+            return True
+    return False
+
+
 def generate() -> dict[str, str]:
     from exabgp.bgp.message.open.asn import AS_TRANS
     from exabgp.bgp.message.update.attribute import attribute as attribute_mod
@@ -100,6 +112,7 @@ def generate() -> dict[str, str]:
             rd.append((int(afi), int(safi), int(size)))
     nopath = list(bytes(PathInfo.NOPATH.pack_path()))
     dp4 = 'true' if _default_path_asn4() else 'false'
+    nhg = 'true' if _nexthop_family_guard() else 'false'
     lean = f'''namespace Exa.Generated.ExaEncTable
 
 /-- (ID, FLAG) of the attribute classes `AttributeCollection.pack_attribute` can emit for a static route -/
@@ -129,6 +142,10 @@ def nhRdSize : List (Nat × Nat × Nat) :=
 /-- `AttributeCollection.pack_attribute`: the default AS_PATH `[local_asn]` is built with `asn4=True`
     (read from the AST); when false it is packed with 2-octet AS numbers and a larger local AS raises -/
 def defaultPathAsn4 : Bool := {dp4}
+/-- `UpdateCollection.messages` consults `negotiated.nexthop` (read from the AST): an announce whose next
+    hop has a family the session cannot carry (IPv4 for an IPv6 route; IPv6 for an IPv4 route without RFC 8950
+    for that family) is left out of the UPDATE. False on the tree where such routes are packed as they come. -/
+def nhFamilyGuard : Bool := {nhg}
 /-- `PathInfo.NOPATH.pack_path()`: what is sent when ADD-PATH is negotiated and no path-information was given -/
 def noPath : List Nat := {nopath}
 
